@@ -3,8 +3,13 @@
 // (accumulation with +=, slices filled by append and joined by strings.Join,
 // byte buffers extended by append / strconv.Append* / fmt.Appendf and converted
 // with string(b), strings.Builder / bytes.Buffer written to along the control
-// flow — see buffer.go). Nothing is executed; a shape that is not modelled
-// yields an error and the client must report the construct undecided.
+// flow — see buffer.go; text written by a closure that an in-module iterator
+// or callback-taking function calls — the body of a range-over-func loop —
+// into a captured buffer, string or []string variable — see closure.go).
+// Nothing is executed; a shape that is not modelled yields an error, which
+// means "this construction was not read": the client must report the construct
+// NOT DECIDED, never as a mismatch. A template that IS returned describes
+// everything that is written, so a client may report what it shows.
 package strtmpl
 
 import (
@@ -27,6 +32,8 @@ const (
 	Self             // internal: the accumulator being defined
 	Opt              // Body present only when Cond holds
 	Tick             // internal: one increment of a counter (Eval.count)
+	Emit             // internal: one call yield(Args...) inside an iterator / a function that drives a callback (closure.go)
+	Elem             // internal: one element (text Body) of a list kept in a cell (closure.go)
 )
 
 type Item struct {
@@ -37,8 +44,9 @@ type Item struct {
 	Loop  *Loop
 	Body  []Item // Rep
 	Cond  *Filter
-	Sep   string // Join
-	Parts []Part // Join
+	Sep   string      // Join
+	Parts []Part      // Join
+	Args  []ssa.Value // Emit
 	// Acc identifies the accumulator: for Self the one being defined, for Rep the
 	// loop-carried accumulator the repetition extends (an *ssa.Phi, or a bufKey
 	// for a strings.Builder / bytes.Buffer).
@@ -60,11 +68,11 @@ type Part struct {
 
 // mergeFilter: the branch that decides whether the edge from Preds[i] into the
 // merge block blk is taken.
-func mergeFilter(blk *ssa.BasicBlock, i int) *Filter {
+func (e *Eval) mergeFilter(blk *ssa.BasicBlock, i int) *Filter {
 	pred := blk.Preds[i]
 	for d := blk.Idom(); d != nil; d = d.Idom() {
 		iff, ok := d.Instrs[len(d.Instrs)-1].(*ssa.If)
-		if !ok || len(d.Succs) != 2 || isLoopHeader(d) {
+		if !ok || len(d.Succs) != 2 || isLoopHeader(d) || e.yieldIf[d] {
 			continue
 		}
 		owns := func(s *ssa.BasicBlock) bool { return s != blk && len(s.Preds) == 1 && s.Dominates(pred) }
@@ -116,6 +124,18 @@ func sameItem(a, b Item) bool {
 		return a.Acc == b.Acc
 	case Tick:
 		return true
+	case Emit:
+		if len(a.Args) != len(b.Args) {
+			return false
+		}
+		for i := range a.Args {
+			if a.Args[i] != b.Args[i] {
+				return false
+			}
+		}
+		return true
+	case Elem:
+		return sameItems(a.Body, b.Body)
 	case Rep:
 		return a.Loop == b.Loop && sameFilter(a.Cond, b.Cond) && sameItems(a.Body, b.Body)
 	case Opt:
@@ -145,15 +165,23 @@ func sameParts(a, b []Part) bool {
 // condition.
 func (e *Eval) merge(blk *ssa.BasicBlock, edge func(i int) ([]Item, error)) ([]Item, error) {
 	var all [][]Item
+	var live []int // index in blk.Preds of all[k]
 	for i := range blk.Preds {
+		if e.deadEdge(blk.Preds[i], blk) {
+			continue // an edge only taken when a callback asked to stop, which it never does (closure.go)
+		}
 		items, err := edge(i)
 		if err != nil {
 			return nil, err
 		}
 		all = append(all, items)
+		live = append(live, i)
 	}
 	if len(all) == 0 {
 		return nil, fmt.Errorf("empty merge")
+	}
+	if len(all) == 1 {
+		return all[0], nil
 	}
 	n := len(all[0])
 	for _, it := range all[1:] {
@@ -175,7 +203,7 @@ func (e *Eval) merge(blk *ssa.BasicBlock, edge func(i int) ([]Item, error)) ([]I
 			}
 			return nil, fmt.Errorf("text extended in different ways on alternative paths")
 		}
-		cond := mergeFilter(blk, i)
+		cond := e.mergeFilter(blk, live[i])
 		if cond == nil {
 			return nil, fmt.Errorf("the condition of an optional extension is not a plain branch")
 		}
@@ -205,7 +233,7 @@ func (e *Eval) mergeList(x *ssa.Phi) ([]Part, error) {
 		if ext != nil {
 			return nil, fmt.Errorf("list extended in different ways on alternative paths")
 		}
-		cond := mergeFilter(x.Block(), i)
+		cond := e.mergeFilter(x.Block(), i)
 		if cond == nil {
 			return nil, fmt.Errorf("the condition of an optional element is not a plain branch")
 		}
@@ -244,7 +272,7 @@ type Loop struct {
 type Eval struct {
 	loops   map[*ssa.BasicBlock]*Loop
 	stack   []any
-	bufs    map[*ssa.Alloc]*bufInfo
+	bufs    map[ssa.Value]*bufInfo
 	df      map[*ssa.Function]map[*ssa.BasicBlock][]*ssa.BasicBlock
 	steps   int
 	visited map[any]bool // accumulators evaluated (Joinify: the family of a counter)
@@ -256,17 +284,30 @@ type Eval struct {
 	bind     map[*ssa.Parameter]ssa.Value
 	bound    map[*ssa.Parameter]ssa.Value // last binding of every parameter entered (nil value: bound twice, ambiguous)
 	inCalls  []*ssa.Function
+
+	// closure.go
+	freeBound map[*ssa.FreeVar]ssa.Value  // free variable of a closure that was entered → the value it captures
+	yieldIf   map[*ssa.BasicBlock]bool    // blocks whose branch tests the result of a callback ("go on?")
+	dead      map[[2]*ssa.BasicBlock]bool // edges taken only when a callback asks to stop
+	deadBlk   map[*ssa.BasicBlock]bool    // blocks reached only through such edges
+	flagZero  *bool                       // count(): the initial value of the boolean flag being evaluated
 }
 
 func New() *Eval {
-	return &Eval{loops: map[*ssa.BasicBlock]*Loop{}, bufs: map[*ssa.Alloc]*bufInfo{},
+	return &Eval{loops: map[*ssa.BasicBlock]*Loop{}, bufs: map[ssa.Value]*bufInfo{},
 		df: map[*ssa.Function]map[*ssa.BasicBlock][]*ssa.BasicBlock{}, visited: map[any]bool{},
-		bind: map[*ssa.Parameter]ssa.Value{}, bound: map[*ssa.Parameter]ssa.Value{}}
+		bind: map[*ssa.Parameter]ssa.Value{}, bound: map[*ssa.Parameter]ssa.Value{},
+		freeBound: map[*ssa.FreeVar]ssa.Value{}, yieldIf: map[*ssa.BasicBlock]bool{},
+		dead: map[[2]*ssa.BasicBlock]bool{}, deadBlk: map[*ssa.BasicBlock]bool{}}
 }
 
 // Bound: the caller's value a helper parameter stood for while the helper was
 // evaluated (nil: never entered, or entered with two different arguments).
 func (e *Eval) Bound(p *ssa.Parameter) ssa.Value { return e.bound[p] }
+
+// BoundFree: the value a free variable of a closure that was entered captures
+// (in the frame of the function that made the closure); nil: never entered.
+func (e *Eval) BoundFree(v *ssa.FreeVar) ssa.Value { return e.freeBound[v] }
 
 // helperReturn: call enters an in-module helper with one result; returns the
 // value of its single non-constant return and binds its parameters. The caller
@@ -357,6 +398,9 @@ func callee(cc *ssa.CallCommon) (pkg, name string) {
 	fn := cc.StaticCallee()
 	if fn == nil || fn.Signature.Recv() != nil {
 		return "", ""
+	}
+	if o := fn.Origin(); o != nil {
+		fn = o // instance of a generic function: slices.Collect[string] is slices.Collect
 	}
 	if fn.Pkg != nil {
 		return fn.Pkg.Pkg.Path(), fn.Name()
@@ -579,13 +623,13 @@ func naturalLoop(h *ssa.BasicBlock) map[*ssa.BasicBlock]bool {
 
 // filterFor finds the branch inside the loop that decides whether the back
 // edge from pred carries an appended element.
-func filterFor(header, pred *ssa.BasicBlock) *Filter {
+func (e *Eval) filterFor(header, pred *ssa.BasicBlock) *Filter {
 	for b := pred; b != nil && b != header; {
 		d := b.Idom()
 		if d == nil {
 			return nil
 		}
-		if iff, ok := d.Instrs[len(d.Instrs)-1].(*ssa.If); ok && len(d.Succs) == 2 && d != header && !isLoopHeader(d) {
+		if iff, ok := d.Instrs[len(d.Instrs)-1].(*ssa.If); ok && len(d.Succs) == 2 && d != header && !isLoopHeader(d) && !e.yieldIf[d] {
 			// a successor "owns" pred when the edge d→succ is the only way into succ and succ dominates pred
 			owns := func(s *ssa.BasicBlock) bool { return s != header && len(s.Preds) == 1 && s.Dominates(pred) }
 			t, f := owns(d.Succs[0]), owns(d.Succs[1])
@@ -624,7 +668,11 @@ func (e *Eval) acc(key any, blk *ssa.BasicBlock, edge func(i int) ([]Item, error
 	var init []Item
 	var rep *Item
 	initSet := false
+	nExt, nPlain := 0, 0 // back edges that extend the accumulator / leave it as it is
 	for i, pred := range blk.Preds {
+		if e.deadEdge(pred, blk) {
+			continue
+		}
 		items, err := edge(i)
 		if err != nil {
 			return nil, err
@@ -642,6 +690,7 @@ func (e *Eval) acc(key any, blk *ssa.BasicBlock, edge func(i int) ([]Item, error
 			continue
 		}
 		if len(items) == 1 && items[0].Kind == Self && items[0].Acc == key {
+			nPlain++
 			continue // iteration that appends nothing
 		}
 		if len(items) < 2 || items[0].Kind != Self || items[0].Acc != key {
@@ -652,10 +701,21 @@ func (e *Eval) acc(key any, blk *ssa.BasicBlock, edge func(i int) ([]Item, error
 				return nil, fmt.Errorf("accumulator used twice in one iteration")
 			}
 		}
+		nExt++
 		if rep != nil {
-			return nil, fmt.Errorf("accumulator extended in different ways on different paths")
+			if !sameItems(rep.Body, items[1:]) {
+				return nil, fmt.Errorf("accumulator extended in different ways on different paths")
+			}
+			continue
 		}
-		rep = &Item{Kind: Rep, Loop: loop, Body: items[1:], Cond: filterFor(blk, pred), Acc: key}
+		rep = &Item{Kind: Rep, Loop: loop, Body: items[1:], Cond: e.filterFor(blk, pred), Acc: key}
+	}
+	if nExt > 1 {
+		// the same extension on several paths of the iteration
+		if nPlain > 0 {
+			return nil, fmt.Errorf("accumulator extended in the same way on some of several paths")
+		}
+		rep.Cond = nil // … on all of them: every iteration extends it
 	}
 	out := append([]Item(nil), init...)
 	if rep != nil {
@@ -731,16 +791,18 @@ func hasKind(items []Item, k ...Kind) bool {
 }
 
 // receiverBuffer: cc is a call of method name… on a local strings.Builder / bytes.Buffer.
-func bufferMethod(cc *ssa.CallCommon) (*ssa.Alloc, string) {
+func bufferMethod(cc *ssa.CallCommon) (ssa.Value, string) {
 	fn := cc.StaticCallee()
 	if fn == nil || fn.Signature.Recv() == nil || len(cc.Args) == 0 || !isTextBuffer(fn.Signature.Recv().Type()) {
 		return nil, ""
 	}
-	al, ok := cc.Args[0].(*ssa.Alloc)
-	if !ok {
-		return nil, ""
+	switch c := cc.Args[0].(type) {
+	case *ssa.Alloc:
+		return c, fn.Name()
+	case *ssa.FreeVar: // the buffer of an enclosing function, seen from inside a closure
+		return c, fn.Name()
 	}
-	return al, fn.Name()
+	return nil, ""
 }
 
 // String evaluates a string-typed value to its template.
@@ -764,6 +826,10 @@ func (e *Eval) String(v ssa.Value) ([]Item, error) {
 	case *ssa.Parameter:
 		if b, ok := e.bind[x]; ok {
 			return e.String(b)
+		}
+	case *ssa.UnOp:
+		if cell, k := cellLoad(x); k == cellText {
+			return e.bufferAt(cell, x) // a string variable captured by a closure: what was assigned to it so far
 		}
 	case *ssa.ChangeType:
 		if isString(x.X.Type()) {
@@ -817,10 +883,12 @@ func (e *Eval) String(v ssa.Value) ([]Item, error) {
 		case pkg == "strconv" && name == "Itoa":
 			return []Item{{Kind: Val, Val: args[0], Verb: 'd'}}, nil
 		case pkg == "strconv" && (name == "FormatInt" || name == "FormatUint"):
-			if b, ok := constInt(args[1]); ok && b == 10 {
-				return []Item{{Kind: Val, Val: args[0], Verb: 'd'}}, nil
+			if b, ok := constInt(args[1]); ok {
+				if vb, known := baseVerb[b]; known {
+					return []Item{{Kind: Val, Val: args[0], Verb: vb}}, nil
+				}
 			}
-			return nil, fmt.Errorf("strconv.%s with a base other than 10", name)
+			return nil, fmt.Errorf("strconv.%s with a base that is not the constant 2, 8, 10 or 16", name)
 		case pkg == "strings" && name == "Join":
 			sep, ok := constString(args[1])
 			if !ok {
@@ -843,12 +911,26 @@ func (e *Eval) String(v ssa.Value) ([]Item, error) {
 			// "" + (elem + sep)* with the last sep removed, or "" + (sep + elem)* with the
 			// first sep removed, is Join(elems, sep) — for every element, empty ones included
 			if chain, body, ok := nested(in); ok && len(body) >= 2 && !hasKind(body, Self, Opt, Rep) {
+				// The end that is trimmed may also be a printed VALUE: then no literal of
+				// the template is removed (the trim can only bite into that value) and the
+				// text keeps the separator it writes at the other end of every element —
+				// the template is returned as it is, for the client to judge.
 				if name == "TrimSuffix" {
-					if last := body[len(body)-1]; last.Kind == Lit && last.Lit == fix && !templateMayEndWith(body[:len(body)-1], fix) {
+					last := body[len(body)-1]
+					if last.Kind == Lit && last.Lit == fix && !templateMayEndWith(body[:len(body)-1], fix) {
 						return []Item{joinOf(fix, chain, body[:len(body)-1], "")}, nil
 					}
-				} else if first := body[0]; first.Kind == Lit && first.Lit == fix {
-					return []Item{joinOf(fix, chain, body[1:], "")}, nil
+					if last.Kind == Val && body[0].Kind == Lit {
+						return in, nil
+					}
+				} else {
+					first := body[0]
+					if first.Kind == Lit && first.Lit == fix {
+						return []Item{joinOf(fix, chain, body[1:], "")}, nil
+					}
+					if first.Kind == Val && body[len(body)-1].Kind == Lit {
+						return in, nil
+					}
 				}
 			}
 			if !hasKind(in, Rep, Join, Opt, Self) {
@@ -864,6 +946,9 @@ func (e *Eval) String(v ssa.Value) ([]Item, error) {
 	}
 	return nil, fmt.Errorf("value of type %s is not text", v.Type())
 }
+
+// baseVerb: the fmt verb that prints an integer like strconv.Format*/Append* in that base.
+var baseVerb = map[int64]byte{2: 'b', 8: 'o', 10: 'd', 16: 'x'}
 
 func templateMayEndWith(items []Item, suf string) bool {
 	if len(items) == 0 {
@@ -885,6 +970,14 @@ func (e *Eval) List(v ssa.Value) ([]Part, error) {
 	case *ssa.Parameter:
 		if b, ok := e.bind[x]; ok {
 			return e.List(b)
+		}
+	case *ssa.UnOp:
+		if cell, k := cellLoad(x); k == cellList {
+			items, err := e.bufferAt(cell, x)
+			if err != nil {
+				return nil, err
+			}
+			return toParts(items)
 		}
 	case *ssa.Const:
 		if x.Value == nil {
@@ -930,6 +1023,27 @@ func (e *Eval) List(v ssa.Value) ([]Part, error) {
 		if main, done, ok := e.helperReturn(x); ok {
 			defer done()
 			return e.List(main)
+		}
+		if pkg, name := callee(x.Common()); pkg == "slices" && (name == "Collect" || name == "AppendSeq") {
+			// the elements an in-module iterator hands out, in order
+			var base []Part
+			seq := x.Common().Args[0]
+			if name == "AppendSeq" {
+				var err error
+				if base, err = e.List(x.Common().Args[0]); err != nil {
+					return nil, err
+				}
+				seq = x.Common().Args[1]
+			}
+			items, err := e.collected(seq)
+			if err != nil {
+				return nil, err
+			}
+			parts, err := toParts(items)
+			if err != nil {
+				return nil, err
+			}
+			return append(base, parts...), nil
 		}
 		if _, name := callee(x.Common()); name == "append" && len(x.Common().Args) == 2 {
 			base, err := e.List(x.Common().Args[0])
@@ -1002,7 +1116,7 @@ func (e *Eval) List(v ssa.Value) ([]Part, error) {
 			if rep != nil {
 				return nil, fmt.Errorf("list extended in different ways on different paths")
 			}
-			rep = &Part{Loop: loop, Body: parts[1:], Cond: filterFor(x.Block(), pred)}
+			rep = &Part{Loop: loop, Body: parts[1:], Cond: e.filterFor(x.Block(), pred)}
 		}
 		out := append([]Part(nil), init...)
 		if rep != nil {
@@ -1137,6 +1251,12 @@ func Render(toks []Tok) string {
 	return sb.String()
 }
 
+// Flat reports whether a template shows no construction at all — no
+// repetition, no join, no optional part: literals and values whose origin was
+// not read (the result of a call that was not entered, a map lookup, …). A
+// client that expects a repetition has then not SEEN how the text is built.
+func Flat(items []Item) bool { return !hasKind(items, Rep, Join, Opt) }
+
 // Describe renders a template (diagnostics).
 func Describe(items []Item) string {
 	var sb strings.Builder
@@ -1160,6 +1280,10 @@ func Describe(items []Item) string {
 			sb.WriteString("<acc> ")
 		case Tick:
 			sb.WriteString("+1 ")
+		case Emit:
+			sb.WriteString("<yield> ")
+		case Elem:
+			fmt.Fprintf(&sb, "[%s] ", strings.TrimSpace(Describe(it.Body)))
 		}
 	}
 	return strings.TrimSpace(sb.String())
